@@ -88,7 +88,10 @@ func c16Run(precreate bool, L int) {
 		switch sym.Choice("op", 5) {
 		case 0: // create
 			subs := []string{"sub1", c16Native}
-			sub := subs[sym.Choice("sub", 2)]
+			if L < 3 { // (2-message histories: also a sub-denomination that tries to climb out of the namespace)
+				subs = append(subs, "../x")
+			}
+			sub := subs[sym.Choice("sub", len(subs))]
 			cctx, commit := ctx.CacheContext()
 			snap := bank.Snapshot()
 			res, err := srv.CreateDenom(cctx, &types.MsgCreateDenom{Subdenom: sub, Metadata: c16Meta(me)})
